@@ -39,19 +39,26 @@ def gen_cms(rng, thorough):
         alphabet = ['a', 'b', 'ab', 'ba', '', 'é', '1', '11', 'x' * 20, 'label', 'ž', 'a\x00', 'a ']
         items = rng.sample(alphabet, min(nitems, len(alphabet)))
     n = rng.choice([0, 1, 2, 5, 20, 60] + ([300] if thorough else []))
+    if rng.random() < 0.06:
+        # a high-cardinality stream: more than 2^10 distinct items, no query before the end
+        kind = 'many-distinct'
+        nitems = rng.choice([1025, 1500, 2600])
+        items = [f's{i}' if i % 3 == 0 else i for i in range(nitems)]
+        width = rng.choice([64, 1024, 2 ** 15])
+        n = nitems + rng.randint(0, 200)
     batch = rng.random() < 0.4
     big = rng.random() < 0.3              # weights around the limits of narrower cell types; the total stays below 2^31
     pool = BIG_WEIGHTS if big else [0, 1, 1, 1, 2, 7, 50]
     d0 = rng.choice(BIG_WEIGHTS if big else [1, 1, 1, 2, 7, 0])
     ops, total = [], 0
-    for _ in range(n):
+    for j in range(n):
         w = d0 if batch else rng.choice(pool)
         if total + w >= 2 ** 31 - 1:
             w = 1 if not batch else d0
             if total + w >= 2 ** 31 - 1:
                 break
         total += w
-        ops.append((rng.randrange(len(items)), w))
+        ops.append(((j if kind == 'many-distinct' and j < len(items) else rng.randrange(len(items))), w))
     return {'t': 'cms', 'depth': depth, 'width': width, 'items': items, 'ops': ops, 'npseed': rng.randrange(2 ** 31),
             'batch': batch, 'kind': kind}
 
